@@ -800,6 +800,24 @@ class Interp:
             new = base.replace(items=items, term=T("dict", *[T("kv", const(k), items[k].term) for k in sorted(items, key=repr)]))
             self.rebind(base, new, st)
             return
+        if base.kind == "arr" and isinstance(base.term, Term) and base.term.op == "T" and len(base.term.args) == 1 and base.shape is not None and len(base.shape) == 2 and ((idx.kind == "int" and idx.shape in ((), None)) or (idx.kind == "arr" and idx.shape == () and idx.extra == "int")) and not getattr(self, "_in_tview", False):
+            # a write through a transposed view: row k of A^T is column k of A
+            under = self.vtab.get(base.term.args[0])
+            if under is not None and under.kind == "arr" and under.loc is not None and under.loc == base.loc and under.shape is not None and len(under.shape) == 2:
+                live = None
+                for env in list(st.frames) + list(st.heap.values()):
+                    for x_ in env.values():
+                        if isinstance(x_, V) and x_.kind == "arr" and x_.loc == base.loc and x_.term == under.term:
+                            live = x_
+                if live is not None:
+                    none_ = vconst(None)
+                    full_ = V("slice", T("slice", const(None), const(None), const(None)), items=[none_, none_, none_])
+                    self._in_tview = True
+                    try:
+                        self.store_subscript(live, self.mk_tuple([full_, idx]), v, st, stmt, target)
+                    finally:
+                        self._in_tview = False
+                    return
         self.event("mutate", stmt, st, how="setitem", target=base, index=idx, value=v, targetsrc=ast.unparse(target.value))
         self._float_index_hazard(idx, st, stmt)
         if base.kind == "arr" and isinstance(base.extra, tuple) and base.extra and base.extra[0] == "dyn" and v.kind in ("arr", "float"):
